@@ -257,7 +257,7 @@ def run(ck):
             ck.report(dict(input=lines[i], config=dict(contact_model=contact, dynamic_model=dyn, threads=1),
                            implementation=iouts[i], model=mouts[i]), oracle=f, key="integrator:" + f,
                       what="update_nodes_positions violates %s (contact model %d, dynamic model %d)" % (f, contact, dyn))
-        if broken and not fails:
+        if broken and not ck.violations:
             i = broken[0]
             ck.report(dict(input=lines[i], config=dict(contact_model=contact, dynamic_model=dyn, threads=1),
                            implementation=iouts[i], model=mouts[i], n_disagreements=len(broken)),
